@@ -2,3 +2,4 @@ import Verif.Props.C20
 import Verif.Props.C03
 import Verif.Props.C02
 import Verif.Props.C04
+import Verif.Props.C14
